@@ -1036,7 +1036,7 @@ def m_sign_pos(ex, st, call):
 def m_checked_add(ex, st, call):
     a, b = call.args
     r = a.e + b.e
-    ok = z3.BVAddNoOverflow(a.e, b.e, False)
+    ok = z3.UGE(r, a.e)
     return ex.ret(st, call, ex.option_ite(ok, Int(r, False)))
 
 
@@ -1056,7 +1056,7 @@ def m_saturating_sub(ex, st, call):
 def m_saturating_add(ex, st, call):
     a, b = call.args
     w = a.width
-    return ex.ret(st, call, Int(z3.If(z3.BVAddNoOverflow(a.e, b.e, False), a.e + b.e, z3.BitVecVal((1 << w) - 1, w)), False))
+    return ex.ret(st, call, Int(z3.If(z3.UGE(a.e + b.e, a.e), a.e + b.e, z3.BitVecVal((1 << w) - 1, w)), False))
 
 
 @model(r'^(u8|u16|u32|u64|usize|i32|i64)::wrapping_add$')
@@ -2358,3 +2358,93 @@ def m_int_cmp(ex, st, call):
     if call.norm.endswith('partial_cmp'):
         return ex.ret(st, call, ex.some(o))
     return ex.ret(st, call, o)
+
+
+@model(r'^str::as_bytes$|^String::as_bytes$')
+def m_as_bytes(ex, st, call):
+    s_ = deref(ex, st, call.args[0])
+    if not isinstance(s_, Str):
+        return None
+    # a byte slice of concrete length: fork on the (bounded) length
+    out = []
+    rest = st
+    for n in range(s_.cap + 1):
+        if rest is None:
+            break
+        hit, rest = ex.split(rest, s_.n == n)
+        if hit is not None:
+            a = hit.alloc(VecV([Int(b, False) for b in s_.bytes[:n]], 'u8'))
+            out += ex.ret(hit, call, Ref(a))
+    return out
+
+
+@model(r'^<Iter<u8> as Iterator>::copied$|^<Iter<.*> as Iterator>::copied$|^<Iter<.*> as Iterator>::cloned$')
+def m_iter_copied(ex, st, call):
+    it = call.args[0]
+    if isinstance(it, Agg) and it.ty == 'Iter':
+        return ex.ret(st, call, Agg('iter', 'CopiedIter', dict(it.fields)))
+    return None
+
+
+@model(r'^<Copied<.*> as Iterator>::next$|^<Cloned<.*> as Iterator>::next$')
+def m_copied_next(ex, st, call):
+    r = call.args[0]
+    it = deref(ex, st, r)
+    if not (isinstance(it, Agg) and it.ty == 'CopiedIter'):
+        return None
+    base, pos, end = it.fields[0], it.fields[1], it.fields[2]
+    if pos >= end:
+        return ex.ret(st, call, ex.none())
+    ex.store(st, r.addr, r.path, Agg('iter', 'CopiedIter', {0: base, 1: pos + 1, 2: end}))
+    return ex.ret(st, call, ex.some(ex.load(st, base.addr, base.path + (('i', pos),))))
+
+
+@model(r'^u8::is_ascii_digit$|^char::is_ascii_digit$')
+def m_is_ascii_digit2(ex, st, call):
+    b = deref(ex, st, call.args[0])
+    if isinstance(b, Char):
+        return ex.ret(st, call, Bool(z3.And(z3.UGE(b.e, 48), z3.ULE(b.e, 57))))
+    return ex.ret(st, call, Bool(z3.And(z3.UGE(b.e, 48), z3.ULE(b.e, 57))))
+
+
+_OPS = {'add': 'Add', 'sub': 'Sub', 'mul': 'Mul', 'div': 'Div', 'rem': 'Rem', 'bitand': 'BitAnd', 'bitor': 'BitOr', 'bitxor': 'BitXor', 'shl': 'Shl', 'shr': 'Shr'}
+
+
+@model(r'^<&?&?(u8|u16|u32|u64|usize|i8|i16|i32|i64|isize) as (Add|Sub|Mul|Div|Rem|BitAnd|BitOr|BitXor|Shl|Shr)(<.*>)?>::(add|sub|mul|div|rem|bitand|bitor|bitxor|shl|shr)$')
+def m_int_operator_trait(ex, st, call):
+    a = deref2(ex, st, call.args[0])
+    b = deref2(ex, st, call.args[1])
+    if not (isinstance(a, Int) and isinstance(b, Int)):
+        return None
+    op = _OPS[call.norm.split('::')[-1]]
+    from .symex import PathEnd
+    if op in ('Add', 'Sub', 'Mul'):
+        r = ex.binop(st, op + 'WithOverflow', a, b)
+        val, ov = r.fields[0], r.fields[1].e
+        ok, bad = ex.split(st, z3.Not(ov))
+        out = []
+        if bad is not None:
+            out.append(PathEnd('panic', bad, None, 'arithmetic overflow in %s' % call.norm))
+        if ok is not None:
+            out += ex.ret(ok, call, val)
+        return out
+    if op in ('Div', 'Rem'):
+        ok, bad = ex.split(st, b.e != 0)
+        out = []
+        if bad is not None:
+            out.append(PathEnd('panic', bad, None, 'division by zero in %s' % call.norm))
+        if ok is not None:
+            out += ex.ret(ok, call, ex.binop(ok, op, a, b))
+        return out
+    return ex.ret(st, call, ex.binop(st, op, a, b))
+
+
+@model(r'^<Option<.*> as PartialEq>::(eq|ne)$|^<\(.*\) as PartialEq>::(eq|ne)$')
+def m_option_generic_eq(ex, st, call):
+    a = deref(ex, st, call.args[0])
+    b = deref(ex, st, call.args[1])
+    try:
+        e = val_eq2(ex, st, a, b)
+    except Exception:
+        return None
+    return ex.ret(st, call, Bool(e if call.norm.endswith('::eq') else z3.Not(e)))
